@@ -55,7 +55,8 @@ def strategy(tier):
     def s(draw):
         flavor = draw(st.sampled_from(["det", "prob", "ens", "full", "full"]))
         spec = draw(gen.dataset(max_inputs=1, clim=False, flavor=flavor, core_max=3, extra_max=1, allow_drop=False,
-                                max_members=3, allow_obsless=True, var_x=True, half_hours=True))
+                                max_members=3, allow_obsless=True, var_x=True, half_hours=True,
+                                other_pool=("temp", "wind", "precip", "qflag", "extra", "pop", "e_x", "p1x")))
         spec["var"]["name"] = draw(st.sampled_from(["Temp", "Air temperature", "Precip 24h acc"]))
         spec["var"]["units"] = draw(st.sampled_from(["K", "deg C", "m s-1", "%"]))
         d = spec["inputs"][0]
